@@ -50,6 +50,27 @@ pub fn oracle_buffer(base: u32) {
     }
 }
 
+/// C11 (exact part, finalizer-free programs): the buffered set equals the model's prediction.
+pub fn oracle_buffer_exact(base: u32) {
+    let w = w();
+    let mut out = [0usize; 8];
+    let wk = rust_cc::verif::walk_buffer(&mut out);
+    let mut predicted = 0;
+    for i in 0..w.n {
+        if w.created[i] && w.buffered[i] {
+            predicted += 1;
+            let mut found = false;
+            for k in 0..wk.walked.min(8) {
+                if out[k] == w.baddr[i] {
+                    found = true;
+                }
+            }
+            check(found, base + 86); // predicted to be buffered, is not
+        }
+    }
+    check(wk.walked == predicted, base + 87); // something is buffered that should not be
+}
+
 // ------------------------------------------------------------------------------------------------ try_unwrap
 
 fn unwrap_scenario(phantom: bool, weak: bool) {
